@@ -1,7 +1,425 @@
-//! Engine F (C10): failing and cancelled builds.
+//! Engine F (C10): failing and cancelled builds. A pre-state is built with the
+//! history executor; then the final build of the plan is executed once
+//! fault-free (measuring polls and scratch-file calls) and once per fault
+//! scenario: cancel at every n, map-full, unusable tmpdir, failing / benign
+//! scratch-file syscalls. After each: result kind, abort, dump equality,
+//! clean retry, leak census.
+
 use std::path::Path;
-use crate::exec::Outcome;
-use crate::plan::Plan;
-pub const RULE: &str = "tbd";
-pub fn gen(seed: u64, thorough: bool) -> Plan { crate::plan::gen_history(seed, "C10", thorough) }
-pub fn run(plan: &Plan, workdir: &Path) -> Outcome { crate::exec::run_history(plan, workdir) }
+use std::sync::Arc;
+
+use crate::exec::{BuildResult, Exec, Outcome, Stop};
+use crate::interpose::ScratchFaults;
+use crate::plan::{Fault, Plan, Step};
+use crate::turnstile::{Turnstile, WRITER};
+use crate::util::Rng;
+
+pub const RULE: &str = "pre-states from seeded histories (never built / built with pending inserts, deletes, overwrites / tree-count change), then per pre-state an enumeration of fault scenarios on the final build: cancel at every poll n in 0..=P (all n when P <= 1500), ~12 map sizes, unusable tmpdir (missing, regular file), each failing errno at each ordinal of each intercepted scratch call (create, write, mmap), benign EINTR/short writes; evaluations = fault scenarios executed; non-trivial+distinct = distinct (fault kind, main step reached, result kind, pre-state hash) cases in which the fault actually fired";
+
+pub fn gen(seed: u64, thorough: bool) -> Plan {
+    let mut r = Rng::new(seed ^ 0xF00D);
+    // a history whose last step is a build with something pending
+    for attempt in 0..50u64 {
+        let mut p = crate::plan::gen_history(crate::util::mix(seed, attempt), "C10", thorough);
+        p.engine = "F".into();
+        p.focus = "C10".into();
+        // cut after the last build; everything after it is dropped
+        let Some(last_build) = p.steps.iter().rposition(|s| matches!(s, Step::Build { .. })) else { continue };
+        p.steps.truncate(last_build + 1);
+        // pending ops must exist between the previous commit and the build, unless first build
+        p.stage_committed = r.chance(1, 2);
+        p.cfg.pool = *r.pick(&[1usize, 1, 2, 4]);
+        p.cfg.map_size = 64 << 20;
+        p.seed = seed;
+        // keep the builds small enough to enumerate every poll
+        let adds = p.steps.iter().filter(|s| matches!(s, Step::Add { .. })).count();
+        if adds < 3 || adds > if thorough { 400 } else { 120 } {
+            continue;
+        }
+        return p;
+    }
+    let mut p = crate::plan::gen_history(seed, "C10", thorough);
+    p.engine = "F".into();
+    p
+}
+
+fn fd_census() -> usize {
+    std::fs::read_dir("/proc/self/fd").map(|d| d.count()).unwrap_or(0)
+}
+
+fn dir_listing(p: &Path) -> Vec<String> {
+    let mut v: Vec<String> = std::fs::read_dir(p)
+        .map(|d| d.filter_map(|e| e.ok()).map(|e| e.file_name().to_string_lossy().to_string()).collect())
+        .unwrap_or_default();
+    v.sort();
+    v
+}
+
+fn expected_kinds(f: &Fault) -> &'static [&'static str] {
+    match f {
+        Fault::CancelAt { .. } => &["BuildCancelled"],
+        Fault::Scratch { .. } | Fault::BadTmpdir { .. } => &["Io", "Heed(Io)"],
+        Fault::MapFull { .. } => &["Heed(Mdb(MapFull))"],
+        Fault::Benign { .. } | Fault::None => &[],
+    }
+}
+
+pub fn run(plan: &Plan, workdir: &Path) -> Outcome {
+    let ts = Turnstile::new(plan.cfg.sched_seed, &plan.cfg.sched, plan.cfg.pool.max(1));
+    ts.adopt_running(WRITER);
+    let mut ex = Exec::new(plan, workdir, Some(ts));
+    crate::ctx::set_active(Some(ex.ctx.clone()));
+    let res = run_inner(&mut ex, plan);
+    match res {
+        Ok(()) | Err(Stop::Violation) => {}
+        Err(Stop::Unevaluable(s)) => ex.out.unevaluable = Some(s),
+    }
+    let out = ex.finish();
+    crate::ctx::set_active(None);
+    crate::turnstile::release_thread();
+    let _ = std::fs::remove_dir_all(workdir);
+    out
+}
+
+struct Target {
+    ix: usize,
+    n_trees: Option<usize>,
+    split_after: Option<usize>,
+    mem: Option<usize>,
+    seed: u64,
+}
+
+fn run_inner(ex: &mut Exec<'_>, plan: &Plan) -> Result<(), Stop> {
+    let Some(k) = plan.steps.iter().rposition(|s| matches!(s, Step::Build { .. })) else {
+        return Err(Stop::Unevaluable("no build in plan".into()));
+    };
+    let Step::Build { ix, n_trees, split_after, mem, seed, .. } = plan.steps[k].clone() else { unreachable!() };
+    let target = Target { ix, n_trees, split_after, mem, seed };
+    // pending = steps after the last commit/abort/restart before k
+    let start = plan.steps[..k].iter().rposition(|s| matches!(s, Step::Commit | Step::Abort | Step::Restart)).map_or(0, |i| i + 1);
+    for (i, st) in plan.steps[..start].iter().enumerate() {
+        ex.step_no = i;
+        ex.out.stats.steps += 1;
+        ex.step(st)?;
+    }
+    let mut pending: Vec<Step> = plan.steps[start..k].to_vec();
+    if ex.has_txn() {
+        // cannot happen: `start` follows a txn boundary
+        ex.do_abort()?;
+    }
+    ex.step_no = k;
+    if plan.stage_committed && !pending.is_empty() {
+        for st in &pending {
+            ex.step(st)?;
+        }
+        ex.do_commit()?;
+        pending.clear();
+    }
+    let base_fds = fd_census();
+    let base_scratch = dir_listing(&ex.tmpdir);
+    let base_tmp = dir_listing(&crate::driver::workdir_base().join("tmp"));
+
+    // ---- baseline: fault-free build
+    for st in &pending {
+        ex.step(st)?;
+    }
+    ex.sys.set_faults(ScratchFaults::default());
+    let res = ex.raw_build(target.ix, target.n_trees, target.split_after, target.mem, target.seed, None, None);
+    let polls = ex.last_build_polls;
+    let c = ex.sys.counters();
+    let (n_writes, n_mmaps, n_creates) = (c.scratch_write, c.scratch_mmap, c.scratch_create);
+    match res {
+        BuildResult::Ok => {}
+        BuildResult::Err(k, m) => {
+            ex.report(&["C14"], "build_error", format!("fault-free baseline build failed: {k}: {m}"))?;
+            return Err(Stop::Unevaluable(format!("baseline build failed: {k}")));
+        }
+        BuildResult::Panic(m) => {
+            ex.report(&["C14"], "build_panic", format!("fault-free baseline build panicked: {m}"))?;
+            return Err(Stop::Unevaluable("baseline build panicked".into()));
+        }
+    }
+    let steps_base = ex.last_build_steps.clone();
+    check_valid_build(ex, &target, "baseline")?;
+    let pre_hash = crate::decode::dump_hash(&ex.committed_dump);
+    ex.world = ex.committed.clone();
+    abort_and_compare(ex, "the fault-free baseline build")?;
+    leak_check(ex, base_fds, &base_scratch, &base_tmp, "the fault-free baseline build")?;
+
+    // ---- scenarios
+    let scenarios: Vec<Fault> = match &plan.scenarios {
+        Some(s) => s.clone(),
+        None => enumerate(plan, polls, n_writes, n_mmaps, n_creates),
+    };
+    for (si, f) in scenarios.iter().enumerate() {
+        ex.out.stats.cases += 1;
+        for st in &pending {
+            ex.step(st)?;
+        }
+        let mut sf = ScratchFaults::default();
+        let mut cancel_at = None;
+        let mut bad_tmp = None;
+        let mut shrink = None;
+        match f {
+            Fault::CancelAt { n } => cancel_at = Some(*n),
+            Fault::Scratch { kind, ordinal, errno } => match kind.as_str() {
+                "write" => sf.write_fail = Some((*ordinal, *errno)),
+                "mmap" => sf.mmap_fail = Some(*ordinal),
+                _ => sf.create_fail = Some((*ordinal, *errno)),
+            },
+            Fault::Benign { eintr_every, short_every } => {
+                sf.eintr_every = *eintr_every;
+                sf.short_every = *short_every;
+            }
+            Fault::BadTmpdir { mode } => bad_tmp = Some(mode.clone()),
+            Fault::MapFull { pages } => shrink = Some(*pages),
+            Fault::None => {}
+        }
+        let before = ex.sys.counters();
+        ex.sys.set_faults(sf);
+        if let Some(pages) = shrink {
+            // shrinking needs no open transaction: re-open the txn afterwards and re-apply the pending ops
+            let had = ex.has_txn();
+            if had {
+                ex.world = ex.committed.clone();
+                drop(ex.take_txn());
+            }
+            let used = ex.env().real_disk_size().unwrap_or(0) as usize;
+            let size = used.next_multiple_of(4096) + pages * 4096;
+            unsafe { ex.env().resize(size) }.map_err(|e| Stop::Unevaluable(format!("resize: {e}")))?;
+            // the pending ops themselves may hit the full map: that is add_item's error, not the build's
+            let mut full_in_ops = false;
+            for st in &pending {
+                if let Err(Stop::Unevaluable(_)) = ex.step(st) {
+                    full_in_ops = true;
+                    break;
+                }
+            }
+            if full_in_ops {
+                ex.out.stats.fault("map_full_in_item_op");
+                ex.out.unevaluable = None;
+                ex.out.observations.retain(|o| o.kind != "add_failed");
+                ex.world = ex.committed.clone();
+                drop(ex.take_txn());
+                unsafe { ex.env().resize(plan.cfg.map_size) }.ok();
+                continue;
+            }
+        }
+        let res = ex.raw_build(target.ix, target.n_trees, target.split_after, target.mem, target.seed, cancel_at, bad_tmp.as_deref());
+        let after = ex.sys.counters();
+        ex.sys.set_faults(ScratchFaults::default());
+        let fired = match f {
+            Fault::CancelAt { n } => ex.last_build_polls > *n,
+            Fault::Scratch { kind, .. } => match kind.as_str() {
+                "write" => after.fired_write_fail > before.fired_write_fail,
+                "mmap" => after.fired_mmap_fail > before.fired_mmap_fail,
+                _ => after.fired_create_fail > before.fired_create_fail,
+            },
+            Fault::Benign { .. } => after.fired_eintr + after.fired_short > before.fired_eintr + before.fired_short,
+            Fault::BadTmpdir { .. } => after.scratch_create > 0,
+            Fault::MapFull { .. } => true,
+            Fault::None => false,
+        };
+        let fname = fault_name(f);
+        let what = format!("scenario #{si} {f:?} (baseline: {polls} polls)");
+        let mut result_kind = "Ok".to_string();
+        match &res {
+            BuildResult::Panic(m) => {
+                ex.report(&["C10"], "panic_under_fault", format!("{what}: the build panicked: {m}"))?;
+                return Err(Stop::Unevaluable("panic".into()));
+            }
+            BuildResult::Err(kind, msg) => {
+                result_kind = kind.clone();
+                let allowed = expected_kinds(f);
+                if !allowed.contains(&kind.as_str()) {
+                    ex.report(&["C10"], "wrong_error_kind", format!("{what}: the build failed with {kind} ({msg}), expected one of {allowed:?}"))?;
+                }
+                if !fired && !matches!(f, Fault::MapFull { .. }) {
+                    ex.report(&["C10"], "error_without_fault", format!("{what}: the fault never fired but the build failed with {kind} ({msg})"))?;
+                }
+            }
+            BuildResult::Ok => {
+                if fired && matches!(f, Fault::CancelAt { n } if *n < polls) && ex.last_build_polls > cancel_at.unwrap() + 1 {
+                    // it asked again after being told to stop and still reported success
+                    ex.report(&["C10"], "cancel_ignored", format!("{what}: the callback answered true {} times and the build still returned Ok", ex.last_build_polls - cancel_at.unwrap()))?;
+                }
+                if fired && matches!(f, Fault::Scratch { .. } | Fault::BadTmpdir { .. }) {
+                    ex.report(&["C10"], "fault_swallowed", format!("{what}: the injected failure fired but the build returned Ok"))?;
+                }
+                // no success over a half-built forest
+                check_valid_build(ex, &target, &what)?;
+            }
+        }
+        if fired {
+            ex.out.stats.fault(&fname);
+            let mut h = crate::util::Fnv::new();
+            h.write_str(&fname);
+            h.write_str(&result_kind);
+            h.write_str(ex.last_build_steps.last().map(|s| s.as_str()).unwrap_or("-"));
+            h.write_u64(pre_hash);
+            ex.out.stats.nontrivial.push(h.finish());
+            if let Fault::CancelAt { .. } = f {
+                if let Some(s) = ex.last_build_steps.last() {
+                    let name = format!("cancelled_in_{s}");
+                    ex.out.stats.probe(&name);
+                }
+            }
+        }
+        ex.world = ex.committed.clone();
+        abort_and_compare(ex, &what)?;
+        if shrink.is_some() {
+            unsafe { ex.env().resize(plan.cfg.map_size) }.map_err(|e| Stop::Unevaluable(format!("resize back: {e}")))?;
+        }
+        leak_check(ex, base_fds, &base_scratch, &base_tmp, &what)?;
+        // clean retry (every failing scenario of a small enumeration, a sample of a large one)
+        let failing = !matches!(res, BuildResult::Ok);
+        if failing && (scenarios.len() <= 40 || si % 7 == 0) {
+            for st in &pending {
+                ex.step(st)?;
+            }
+            let res2 = ex.raw_build(target.ix, target.n_trees, target.split_after, target.mem, target.seed, None, None);
+            match res2 {
+                BuildResult::Ok => check_valid_build(ex, &target, &format!("retry after {what}"))?,
+                BuildResult::Err(k, m) => {
+                    ex.report(&["C10"], "retry_failed", format!("retry without the fault after {what} failed: {k}: {m}"))?;
+                    return Err(Stop::Unevaluable("retry failed".into()));
+                }
+                BuildResult::Panic(m) => {
+                    ex.report(&["C10"], "retry_panicked", format!("retry without the fault after {what} panicked: {m}"))?;
+                    return Err(Stop::Unevaluable("retry panicked".into()));
+                }
+            }
+            ex.out.stats.probe("clean_retry");
+            ex.world = ex.committed.clone();
+            abort_and_compare(ex, &format!("retry after {what}"))?;
+            leak_check(ex, base_fds, &base_scratch, &base_tmp, &format!("retry after {what}"))?;
+        }
+    }
+    let _ = steps_base;
+    Ok(())
+}
+
+fn fault_name(f: &Fault) -> String {
+    match f {
+        Fault::CancelAt { .. } => "cancel".into(),
+        Fault::Scratch { kind, errno, .. } => format!("scratch_{kind}_errno{errno}"),
+        Fault::Benign { eintr_every, short_every } => format!("benign_eintr{}_short{}", (*eintr_every > 0) as u8, (*short_every > 0) as u8),
+        Fault::BadTmpdir { mode } => format!("tmpdir_{mode}"),
+        Fault::MapFull { .. } => "map_full".into(),
+        Fault::None => "none".into(),
+    }
+}
+
+fn enumerate(plan: &Plan, polls: u64, n_writes: u64, n_mmaps: u64, n_creates: u64) -> Vec<Fault> {
+    let mut v = Vec::new();
+    let mut r = Rng::new(plan.seed ^ 0x5CE);
+    // cancel at every n
+    if polls <= 1500 {
+        for n in 0..=polls {
+            v.push(Fault::CancelAt { n });
+        }
+    } else {
+        for n in 0..300 {
+            v.push(Fault::CancelAt { n });
+        }
+        for n in polls - 300..=polls {
+            v.push(Fault::CancelAt { n });
+        }
+        for _ in 0..400 {
+            v.push(Fault::CancelAt { n: 300 + r.below(polls - 600) });
+        }
+    }
+    for pages in [0usize, 1, 2, 3, 4, 6, 8, 12, 16, 24, 32, 64] {
+        v.push(Fault::MapFull { pages });
+    }
+    for mode in ["missing", "file"] {
+        v.push(Fault::BadTmpdir { mode: mode.into() });
+    }
+    for o in 0..n_creates.min(40) {
+        for errno in [libc::EMFILE, libc::ENOSPC] {
+            v.push(Fault::Scratch { kind: "create".into(), ordinal: o, errno });
+        }
+    }
+    for o in 0..n_writes.min(60) {
+        for errno in [libc::ENOSPC, libc::EIO] {
+            v.push(Fault::Scratch { kind: "write".into(), ordinal: o, errno });
+        }
+    }
+    for o in 0..n_mmaps.min(40) {
+        v.push(Fault::Scratch { kind: "mmap".into(), ordinal: o, errno: libc::ENOMEM });
+    }
+    for (e, s) in [(1u64, 0u64), (2, 0), (0, 1), (0, 2), (3, 2)] {
+        v.push(Fault::Benign { eintr_every: e, short_every: s });
+    }
+    v
+}
+
+/// The transaction holds a successful build: model it, run the full structural + query battery.
+fn check_valid_build(ex: &mut Exec<'_>, t: &Target, what: &str) -> Result<(), Stop> {
+    {
+        let m = &mut ex.world.indexes[t.ix];
+        let cap = t.split_after.unwrap_or(m.dim);
+        if m.state == crate::model::Staleness::NeverBuilt {
+            m.caps_used.clear();
+        }
+        m.caps_used.insert(cap);
+        m.state = crate::model::Staleness::Built;
+        m.builds += 1;
+    }
+    let d = ex.dump_current();
+    let w = ex.world.clone();
+    let dec = match crate::decode::decode_dump(&d, &|i| w.metric_of(i)) {
+        Ok(x) => x,
+        Err(e) => {
+            ex.report(&["C10", "C16"], "invalid_after_ok", format!("{what}: build returned Ok but the dump does not decode: {e}"))?;
+            return Err(Stop::Unevaluable("undecodable".into()));
+        }
+    };
+    // reports C01 / C02 findings as C10 too: "no success over a half-built forest"
+    let saved_focus = ex.focus.clone();
+    ex.focus = "C01".into();
+    let r1 = ex.structural_and_queries(t.ix, &d, &dec, true);
+    ex.focus = "C02".into();
+    let r2 = if r1.is_ok() { ex.structural_and_queries(t.ix, &d, &dec, true) } else { Ok(()) };
+    ex.focus = saved_focus;
+    if r1.is_err() || r2.is_err() {
+        if let Some(v) = ex.out.violation.take() {
+            ex.report(&["C10"], "ok_over_invalid_forest", format!("{what}: build returned Ok but: {}", v.detail))?;
+        }
+        return Err(Stop::Unevaluable("invalid forest after Ok".into()));
+    }
+    Ok(())
+}
+
+fn abort_and_compare(ex: &mut Exec<'_>, what: &str) -> Result<(), Stop> {
+    if let Some(t) = ex.take_txn() {
+        t.abort();
+        ex.out.stats.aborts += 1;
+    }
+    ex.world = ex.committed.clone();
+    let after = ex.dump_current();
+    if after != ex.committed_dump {
+        ex.report(&["C10", "C08"], "abort_left_trace", format!("after {what} and abort, the database differs from its previous contents"))?;
+        return Err(Stop::Unevaluable("abort left a trace".into()));
+    }
+    Ok(())
+}
+
+fn leak_check(ex: &mut Exec<'_>, base_fds: usize, base_scratch: &[String], base_tmp: &[String], what: &str) -> Result<(), Stop> {
+    let fds = fd_census();
+    if fds != base_fds {
+        ex.report(&["C10"], "fd_leak", format!("{what}: {fds} open file descriptors, {base_fds} before"))?;
+    }
+    let s = dir_listing(&ex.tmpdir);
+    if s != base_scratch {
+        ex.report(&["C10"], "tmp_file_left", format!("{what}: scratch directory holds {s:?}"))?;
+    }
+    let t = dir_listing(&crate::driver::workdir_base().join("tmp"));
+    if t != base_tmp {
+        ex.report(&["C10"], "tmp_file_left", format!("{what}: default temp directory holds {t:?}"))?;
+    }
+    Ok(())
+}
+
+#[allow(dead_code)]
+fn unused(_: Arc<u8>) {}
